@@ -270,7 +270,7 @@ fn expect_none(chain: &[Wk], inner: &Option<Carried>) -> Option<Carried> {
 
 pub fn metas() -> Vec<(String, syn::Meta)> {
     let texts = [
-        "v", "a::b", "::v", "v()", "v(a)", "v(a = 1)", "v(zz)", "v(a = \"x\")", "v(a = 300)", "v(a = 1, b = \"s\")", "v(uno)", "v(duo = 4)", "v(duo = \"x\")", "v(k = \"s\", j = \"t\")", "v(k = \"s\", k = \"t\")", "v(a = \"x\", n(c = \"y\", d = \"z\"))", "v(a = 1, n(c = 2, zz))", "v(zz, n(), b = 5)", "v(a = 1, n(c = 2, d = 3))",
+        "v", "a::b", "::v", "v()", "v(a)", "v(a = 1)", "v(zz)", "v(a = \"x\")", "v(a = 300)", "v(a = 1, b = \"s\")", "v(uno)", "v(duo = 4)", "v(duo = \"x\")", "v(k = \"s\", j = \"t\")", "v(k = \"s\", k = \"t\")", "v(a = \"x\", n(c = \"y\", d = \"z\"))", "v(a = 1, n(c = 2, zz))", "v(zz, n(), b = 5)", "v(a = 1, n(c = 2, d = 3))", "v(a, b,)", "v(a,)", "v(a = 1,)", "v(a = 1, b = \"s\",)", "v(uno,)", "v(a::b, c,)", "v(k = \"s\", j = \"t\",)",
         "v(a::b, c)", "v = true", "v = \"s\"", "v = \"5\"", "v = \"uno\"", "v = \"a::b\"", "v = \"1 +\"", "v = 5", "v = -3", "v = 300", "v = 'c'", "v = 1.5", "v = a::b", "v = a", "v = 1 + 2",
         "v = [1, 2]", "v = 0..5", "v = |x| x", "v = (a + b)", "v = (5)", "v = ((a))", "v = (a, b)", "v = { 1 }", "v = -x", "v = &x", "v = (\"s\")", "v = (true)",
     ];
